@@ -16,7 +16,7 @@
        EncodedPk/EncodedSk::try_from = pk_string_ok / sk_string_ok): every key of the history is accepted by the
        validators, UNLOCKS with the password it was generated with to the private key drawn, and its public key
        decodes to the matching X25519 key; and `-k F` reads back ks0 ++ the new keys.
-   Premises that remain (stated in the theorems): the UTF-8 codec is abstract with two laws (encoding is a monoid
+   Premises that remain (stated in the theorems): the UTF-8 codec is abstract with two laws in the first group of theorems; the "_concrete" theorems at the end instantiate it with the executable strict codec of Model/Utf8.v (encoding is a monoid
    morphism, decoding inverts encoding); random blocks are byte strings (bytes_ok); generated names contain no
    newline and names / public keys are pairwise distinct (the property's "distinct names"; distinct public keys =
    distinct private keys drawn); prims_bytes_ok (primitives return bytes; proved for the RFC instance:
@@ -251,3 +251,117 @@ Theorem C14_gen_key_legacy_refuted :
     (exists c1, fs_get (new_fs (s_cmd_gen_key w o sk salt)) F = Some c1 /\ bprefix c0 c1).
 Proof. exact gen_key_legacy_refuted. Qed.
 Print Assumptions C14_gen_key_legacy_refuted.
+
+(* ====================================================================================================
+   The same history theorems with the CONCRETE UTF-8 codec (Model/Utf8.v: utf8_encode = str::as_bytes,
+   utf8_decode = the strict String::from_utf8; laws proved in Proofs/Utf8Facts.v; same functions as the executable
+   codec of the correspondence check: Proofs/Utf8Run.v).  The two abstract codec premises are gone.  The law
+   "decoding inverts encoding" holds for texts of Unicode scalar values only (Utf8.scalar_ok: a Rust String holds
+   nothing else), so texts are restricted accordingly:
+     - abstract validators / keyring functions: the prior text t0 and the entry texts are scalar (premises);
+     - real keyring functions: only the prior text t0 (the generated entry texts are PROVED scalar: the name went
+       through the strict decoder, the two values are base64).
+   ==================================================================================================== *)
+From Kestrel.Model Require Utf8.
+From Kestrel.Proofs Require Utf8Facts Combine2GenUtf8.
+
+Theorem C14_gen_history_reads_back_existing_concrete :
+  forall (P : prims) (pk_ok sk_ok : text -> bool) (lock : bytes -> bytes -> bytes -> text) (encode_pk : bytes -> text)
+         (F : text) (l : fsys) (ins : list gen_input) (l' : fsys) (es : list entry) (t0 : text) (ks0 : list entry)
+         (w : world),
+  fs_get l F = Some (Utf8.utf8_encode t0) -> Forall Utf8.scalar_ok t0 -> parse_config pk_ok sk_ok t0 = Ok ks0 ->
+  gen_history P lock encode_pk Utf8.utf8_decode Utf8.utf8_encode F l ins = Some (l', map entry_text es) ->
+  Forall (fun e => Forall Utf8.scalar_ok (entry_text e)) es ->
+  Forall (gen_entry_ok pk_ok sk_ok) es -> NoDup (map k_name (ks0 ++ es)) -> NoDup (map k_pub (ks0 ++ es)) ->
+  fs w = l' -> resolve_keyring pk_ok sk_ok Utf8.utf8_decode w (Some F) = inr (ks0 ++ es).
+Proof. exact Combine2GenUtf8.gen_history_reads_back_existing_c. Qed.
+Print Assumptions C14_gen_history_reads_back_existing_concrete.
+
+Theorem C14_gen_history_reads_back_fresh_concrete :
+  forall (P : prims) (pk_ok sk_ok : text -> bool) (lock : bytes -> bytes -> bytes -> text) (encode_pk : bytes -> text)
+         (F : text) (l : fsys) (ins : list gen_input) (l' : fsys) (es : list entry) (w : world),
+  fs_get l F = None ->
+  gen_history P lock encode_pk Utf8.utf8_decode Utf8.utf8_encode F l ins = Some (l', map entry_text es) -> es <> [] ->
+  Forall (fun e => Forall Utf8.scalar_ok (entry_text e)) es ->
+  Forall (gen_entry_ok pk_ok sk_ok) es -> NoDup (map k_name es) -> NoDup (map k_pub es) ->
+  fs w = l' -> resolve_keyring pk_ok sk_ok Utf8.utf8_decode w (Some F) = inr es.
+Proof. exact Combine2GenUtf8.gen_history_reads_back_fresh_c. Qed.
+Print Assumptions C14_gen_history_reads_back_fresh_concrete.
+
+Theorem C14_gen_history_reads_back_empty_concrete :
+  forall (P : prims) (pk_ok sk_ok : text -> bool) (lock : bytes -> bytes -> bytes -> text) (encode_pk : bytes -> text)
+         (F : text) (l : fsys) (ins : list gen_input) (l' : fsys) (es : list entry) (w : world),
+  fs_get l F = Some [] ->
+  gen_history P lock encode_pk Utf8.utf8_decode Utf8.utf8_encode F l ins = Some (l', map entry_text es) -> es <> [] ->
+  Forall (fun e => Forall Utf8.scalar_ok (entry_text e)) es ->
+  Forall (gen_entry_ok pk_ok sk_ok) es -> NoDup (map k_name es) -> NoDup (map k_pub es) ->
+  fs w = l' ->
+  fs_get l' F = Some (Utf8.utf8_encode (c_nl :: keyring_text es)) /\
+  resolve_keyring pk_ok sk_ok Utf8.utf8_decode w (Some F) = inr es.
+Proof. exact Combine2GenUtf8.gen_history_reads_back_empty_c. Qed.
+Print Assumptions C14_gen_history_reads_back_empty_concrete.
+
+Theorem C14_history_all_keys_usable_existing_concrete :
+  forall (P : prims), aead_ok P -> hash_ok P -> Keyring.prims_bytes_ok P ->
+  forall (F : text) (l : fsys) (ins : list gen_input) (l' : fsys) (ks : list text) (t0 : text) (ks0 : list entry)
+         (w : world),
+  fs_get l F = Some (Utf8.utf8_encode t0) -> Forall Utf8.scalar_ok t0 ->
+  parse_config Keyring.pk_string_ok Keyring.sk_string_ok t0 = Ok ks0 ->
+  gen_history P (k_lock P) (k_encode_pk P) Utf8.utf8_decode Utf8.utf8_encode F l ins = Some (l', ks) ->
+  Forall (fun i => bytes_ok (gi_sk i) /\ bytes_ok (gi_salt i)) ins ->
+  fs w = l' ->
+  exists es : list entry, ks = map entry_text es /\
+    Forall2 (fun (i : gen_input) (e : entry) => exists pw : bytes,
+        (if gi_env_pass i then gi_env_password i else None) = Some pw /\ length (gi_sk i) = 32%nat /\
+        exists esk : text,
+          k_pub e = b64_encode (Keyring.pk_blob P (dh_pub P (gi_sk i))) /\ k_priv e = Some esk /\
+          Keyring.pk_string_ok (k_pub e) = true /\ val_ok (k_pub e) /\
+          Keyring.sk_string_ok esk = true /\ val_ok esk /\
+          Keyring.unlock_private_key P esk pw = Ok (gi_sk i) /\
+          Keyring.decode_public_key P (k_pub e) = Ok (dh_pub P (gi_sk i)) /\
+          valid_key_name (k_name e) = true /\ trim (k_name e) = k_name e) ins es /\
+    fs_get l' F = Some (Utf8.utf8_encode (t0 ++ flat_map (fun e => c_nl :: entry_text e) es)) /\
+    (Forall (fun e => ~ In c_nl (k_name e)) es ->
+     NoDup (map k_name (ks0 ++ es)) -> NoDup (map k_pub (ks0 ++ es)) ->
+     resolve_keyring Keyring.pk_string_ok Keyring.sk_string_ok Utf8.utf8_decode w (Some F) = inr (ks0 ++ es)).
+Proof. exact Combine2GenUtf8.gen_history_all_keys_usable_existing_c. Qed.
+Print Assumptions C14_history_all_keys_usable_existing_concrete.
+
+Theorem C14_history_all_keys_usable_fresh_concrete :
+  forall (P : prims), aead_ok P -> hash_ok P -> Keyring.prims_bytes_ok P ->
+  forall (F : text) (l : fsys) (ins : list gen_input) (l' : fsys) (ks : list text) (w : world),
+  fs_get l F = None -> ins <> [] ->
+  gen_history P (k_lock P) (k_encode_pk P) Utf8.utf8_decode Utf8.utf8_encode F l ins = Some (l', ks) ->
+  Forall (fun i => bytes_ok (gi_sk i) /\ bytes_ok (gi_salt i)) ins ->
+  fs w = l' ->
+  exists es : list entry, ks = map entry_text es /\
+    Forall2 (fun (i : gen_input) (e : entry) => exists pw : bytes,
+        (if gi_env_pass i then gi_env_password i else None) = Some pw /\ length (gi_sk i) = 32%nat /\
+        exists esk : text,
+          k_pub e = b64_encode (Keyring.pk_blob P (dh_pub P (gi_sk i))) /\ k_priv e = Some esk /\
+          Keyring.pk_string_ok (k_pub e) = true /\ val_ok (k_pub e) /\
+          Keyring.sk_string_ok esk = true /\ val_ok esk /\
+          Keyring.unlock_private_key P esk pw = Ok (gi_sk i) /\
+          Keyring.decode_public_key P (k_pub e) = Ok (dh_pub P (gi_sk i)) /\
+          valid_key_name (k_name e) = true /\ trim (k_name e) = k_name e) ins es /\
+    fs_get l' F = Some (Utf8.utf8_encode (keyring_text es)) /\
+    (Forall (fun e => ~ In c_nl (k_name e)) es -> NoDup (map k_name es) -> NoDup (map k_pub es) ->
+     resolve_keyring Keyring.pk_string_ok Keyring.sk_string_ok Utf8.utf8_decode w (Some F) = inr es).
+Proof. exact Combine2GenUtf8.gen_history_all_keys_usable_fresh_c. Qed.
+Print Assumptions C14_history_all_keys_usable_fresh_concrete.
+
+(* the codec laws themselves (the two former premises, and strictness) *)
+Theorem C14_utf8_encode_app :
+  forall a b : text, Utf8.utf8_encode (a ++ b) = Utf8.utf8_encode a ++ Utf8.utf8_encode b.
+Proof. exact Utf8Facts.utf8_encode_app. Qed.
+Print Assumptions C14_utf8_encode_app.
+
+Theorem C14_utf8_decode_encode :
+  forall t : text, Forall Utf8.scalar_ok t -> Utf8.utf8_decode (Utf8.utf8_encode t) = Some t.
+Proof. exact Utf8Facts.utf8_decode_encode. Qed.
+Print Assumptions C14_utf8_decode_encode.
+
+Theorem C14_utf8_encode_decode :
+  forall (b : bytes) (t : text), Utf8.utf8_decode b = Some t -> Utf8.utf8_encode t = b /\ Forall Utf8.scalar_ok t.
+Proof. exact Utf8Facts.utf8_encode_decode. Qed.
+Print Assumptions C14_utf8_encode_decode.
